@@ -33,14 +33,15 @@ META = {
     'shards': {'quick': 4, 'thorough': 16},
     'quotas': {
         'quick': {'inprocess-pairs': 100, 'child-processes': 5, 'digests-compared': 500, 'route:wrapper-mal-json/analysed': 10,
-                  'route:wrapper-mar-yml/bare': 10, 'inputs-unchanged-checks': 100},
+                  'route:wrapper-mar-yml/bare': 10, 'inputs-unchanged-checks': 100,
+                  'generation-after-edits-compared': 30, 'class:hostile-attackers': 30},
         'thorough': {'inprocess-pairs': 10000, 'child-processes': 80, 'digests-compared': 20000,
                      'route:wrapper-mal-json/analysed': 1000, 'route:wrapper-mar-yml/bare': 1000,
                      'inputs-unchanged-checks': 10000},
     },
     'watchdog_s': {'quick': 900, 'thorough': 4 * 3600},
 }
-CASES_INPROC = {'quick': 600, 'thorough': 40000}
+CASES_INPROC = {'quick': 480, 'thorough': 40000}
 CASES_CHILD = {'quick': 32, 'thorough': 1600}
 SECONDS = {'quick': 50, 'thorough': 480}
 HASHSEEDS = ['0', '1', '2', '3', 'random']
@@ -105,6 +106,62 @@ def inprocess(case, res, count=True):
     if canon(g3._to_dict()) != d2:
         return ('determinism:generation-after-analysis-differs', 'a graph generated after analysing another one differs')
     return None
+
+
+def _after_edits(rng, case, res, history=None):
+    """the graph generated from a Model after it was edited (and after it already served a generation) must be
+    the graph generated from a freshly built Model with the same content"""
+    from maltoolbox.attackgraph import AttackGraph
+    from maltoolbox.model import Model
+    from ..shadow import Lockstep, gen_history, Divergence
+    from ..stream import cpu_budget, CASE_CPU_S
+    lang = Lang(case['spec'])
+    if history is None:
+        h0 = gen_history(rng, lang, rng.randint(6, 25), invalid=0.0, attackers=False, names=['srv', 'db', 'n', 'x', None])
+        # more multi-member fields, so that an asset can leave an association that survives
+        for _ in range(rng.randint(1, 5)):
+            h0.append(['add_assoc', rng.randrange(64), [['live', rng.randrange(64)], ['live', rng.randrange(64)]],
+                       [['live', rng.randrange(64)], ['live', rng.randrange(64)]][:rng.randint(1, 2)]])
+        h1 = gen_history(rng, lang, rng.randint(1, 8), invalid=0.0, attackers=False, names=['y', 'z', None])
+        for _ in range(rng.randint(1, 4)):
+            h1.insert(rng.randrange(len(h1) + 1), ['remove_from_assoc', ['live', rng.randrange(64)], ['live', rng.randrange(64)]])
+        history = [h0, h1]
+    h = history
+    try:
+        ls = Lockstep(case['spec'])
+        ls.check_every_step = False
+        for op in h[0]:
+            ls.apply(op)
+        with cpu_budget(CASE_CPU_S):
+            AttackGraph(ls.lang_graph, ls.model)           # a first generation (fills whatever is cached)
+        for op in h[1]:
+            ls.apply(op)
+        with cpu_budget(CASE_CPU_S):
+            g2 = AttackGraph(ls.lang_graph, ls.model)
+        am = ls.abstract_model()
+        fresh, _ = build_real(lang, am, ls.factory, Model, None, explicit_ids=True)
+        with cpu_budget(CASE_CPU_S):
+            g3 = AttackGraph(ls.lang_graph, fresh)
+    except Divergence:
+        return None
+    except TooExpensive:
+        res.count('skipped:too-expensive')
+        return None
+    res.count('generation-after-edits-compared')
+    a, b = canon(g2._to_dict()), canon(g3._to_dict())
+    if a != b:
+        from .C03 import first_diff
+        return ('determinism:generation-after-model-edits-differs',
+                'the graph generated from an edited Model differs from the graph of a freshly built equal Model at %s' % (
+                    first_diff(json.loads(b), json.loads(a))), h)
+    return None
+
+
+def after_edits(rng, case, res, history=None):
+    try:
+        return _after_edits(rng, case, res, history)
+    except Exception as exc:
+        return ('unexpected:raised-%s' % type(exc).__name__, 'generation after edits raised %r' % (exc,), history)
 
 
 def nontrivial_case(case):
@@ -213,6 +270,16 @@ def run(rng, res, tier, shard, nshards):
     budget = Budget(CASES_INPROC[tier] // nshards + 1, SECONDS[tier])
     while budget.more():
         case = gen_case(rng, Cfg(), MCfg(attackers=0.7), corelang_share=0.03)
+        if rng.random() < 0.3:
+            from .C11 import hostile_attackers
+            case = hostile_attackers(rng, case)       # overlapping entry points, steps the asset type does not have
+            res.count('class:hostile-attackers')
+        if case['source'] == 'generated' and rng.random() < 0.25:
+            first = after_edits(rng, case, res)
+            res.case(digest([case['spec'], 'edits', res.evaluations]))
+            if first:
+                res.violation(first[0], first[1], {'case': case, 'edits': first[2]})
+            continue
         first = inprocess(case, res)
         res.case(digest([case['spec'], case['amodel']]) if nontrivial_case(case) else None)
         if first:
@@ -261,6 +328,13 @@ def run(rng, res, tier, shard, nshards):
 
 def replay(case, res):
     c = case['case']
+    if 'edits' in case:
+        import random
+        f = after_edits(random.Random(0), c, res, case['edits'])
+        res.case(None)
+        if f:
+            res.violation(f[0], f[1], case)
+        return
     first = inprocess(c, res)
     res.case(None)
     if first:
